@@ -369,7 +369,7 @@ func c08RibStruct(c *h.Ctx, fib *fibImpl, ref *refRib, m int, fail func(key, wha
 }
 
 func c06Run(c *h.Ctx) {
-	n := c.Pick(60, 2000)
+	n := c.Pick(240, 2000)
 	for k := 0; k < n; k++ {
 		for _, algo := range []string{"nametree", "hashtable"} {
 			id := fmt.Sprintf("h%d-%s", k, algo)
